@@ -13,6 +13,10 @@ def jobs(tier, seed):
     J = header_families(P, G, tier)
     J += startline_families(P, G, tier)
     J += deepen(P, G, 'chunk', lambda n: sc('chunk', n), range(0, T(tier, 6, 8) + 1), T(tier, 60, 600), 'parse_chunk_size, every {n}-byte buffer', 5)
+    # chunk-size lines whose extension / line end is symbolic, followed by a real CRLF (n must stop at the FIRST one)
+    for nm, pre, suf, top in (('chunk-ext', b'1;', b'\r\n', 4), ('chunk-ext-tail', b'1f ;x', b'\r\nAB\r\n', 3), ('chunk-digits-tail', b'a', b'\r\n0\r\n', 3)):
+        J += deepen(P, G, nm, lambda n, pre=pre, suf=suf: sc('chunk', n, prefix=pre, suffix=suf), range(1, T(tier, top, top + 2) + 1), T(tier, 60, 400),
+                    f'parse_chunk_size {pre!r} + ' + '{n} symbolic bytes + ' + f'{suf!r}', 2)
     # with a header stored before: the space-before-first option must stop applying
     J += deepen(P, G, 'resp-after-header', lambda n: sc('resp', n, prefix=RESP_LINE + b'a:b\r\n', api='cfg', fl=RESP_HDR_SYM, cap=2),
                 range(3, T(tier, 5, 7) + 1), T(tier, 100, 900), 'response, start line + "a:b" line + every {n}-byte remainder, 4 header options symbolic', 4)
